@@ -171,12 +171,91 @@ def gen_prices(rng, T, keys, kind=None, cap_levels=None):
 # names
 # ------------------------------------------------------------------------------------------------
 HOSTILE_NAMES = ['1', '11', '111', '2', '12', '21', 'a', 'ab', 'abc', 'b', 'bc', 'x (y)', 'x', 'y', 'a__b', 'a_internal_b',
-                 ' (', 'n (n)', 'A', 'a ', 'Z_1', '1_Z', '0', '00', 'NaN ', 'none', 'disp', 'index', 'asset', '10', '01']
+                 ' (', 'n (n)', 'A', 'a ', 'Z_1', '1_Z', '0', '00', 'NaN ', 'none', 'disp', 'index', 'asset', '10', '01', 'Z_11']
 
 
 def hostile_names(rng, k):
     idx = rng.permutation(len(HOSTILE_NAMES))[:k]
     return [HOSTILE_NAMES[int(i)] for i in idx]
+
+
+def rename_hostile(rng, spec):
+    """injective renaming of assets and nodes with the hostile name pool."""
+    import copy
+    spec = copy.deepcopy(spec)
+    names = []
+    def coll(a):
+        names.append(a['name'])
+        if 'base' in a: coll(a['base'])
+        for x in a.get('assets', []): coll(x)
+    for a in spec['assets']: coll(a)
+    nodes = sorted({n for a in spec['assets'] for n in spec_nodes(a)})
+    # assets and nodes are separate name spaces: each renaming is injective on its own, an asset may carry the name of a node, and concatenations of
+    # asset and node names may coincide ('1'+'11' = '11'+'1')
+    pool_a = hostile_names(rng, len(names)); pool_n = hostile_names(rng, len(nodes))
+    if len(pool_a) < len(names) or len(pool_n) < len(nodes):
+        return spec, {}
+    amap = dict(zip(names, pool_a))
+    nmap = dict(zip(nodes, pool_n))
+    tops = [a for a in spec['assets'] if a.get('nodes') and a['type'] not in ('StructuredAsset', 'LinkedAsset', 'ScaledAsset')]
+    if len(nodes) >= 2 and len(tops) >= 2 and rng.random() < 0.25:
+        # two (asset, node) pairs whose concatenated names coincide: asset p in node pq and asset pq in node p
+        for _ in range(10):
+            a1, a2 = [tops[int(i)] for i in rng.permutation(len(tops))[:2]]
+            n1, n2 = a1['nodes'][0], a2['nodes'][0]
+            if n1 != n2:
+                pa, pb = pick(rng, [('1', '11'), ('a', 'ab'), ('0', '00'), ('x', 'x (y)')])
+                def put(mp, key, val):
+                    for k_, v_ in list(mp.items()):
+                        if v_ == val and k_ != key:
+                            mp[k_] = mp[key]          # swap: stays injective
+                    mp[key] = val
+                put(amap, a1['name'], pa); put(amap, a2['name'], pb); put(nmap, n1, pb); put(nmap, n2, pa)
+                break
+    if len(nodes) >= 2 and rng.random() < 0.3:
+        # two nodes whose names differ by trailing digits only: node name + step number may coincide ('1' + '17' = '11' + '7')
+        n1, n2 = [nodes[int(i)] for i in rng.permutation(len(nodes))[:2]]
+        pa, pb = pick(rng, [('1', '11'), ('1', '12'), ('2', '21'), ('0', '00'), ('1', '10'), ('Z_1', 'Z_11')])
+        def put_n(key, val):
+            for k_, v_ in list(nmap.items()):
+                if v_ == val and k_ != key:
+                    nmap[k_] = nmap[key]
+            nmap[key] = val
+        put_n(n1, pa); put_n(n2, pb)
+    two = [a for a in spec['assets'] if a['type'] == 'Storage' and len(a.get('nodes') or []) == 2 and a['nodes'][0] != a['nodes'][1]]
+    if two and len(nodes) >= 3 and rng.random() < 0.5:
+        # a two-node asset whose second node has the longer name, the beginning of which is the name of a third node
+        a_ = two[int(rng.integers(len(two)))]
+        third = pick(rng, [n for n in nodes if n not in a_['nodes']])
+        p1, p2, p3 = pick(rng, [('2', '12', '1'), ('b', 'ab', 'a'), ('x', 'abc', 'a'), ('0', '11', '1'), ('y', 'x (y)', 'x')])
+        for key, val in ((a_['nodes'][0], p1), (a_['nodes'][1], p2), (third, p3)):
+            for k_, v_ in list(nmap.items()):
+                if v_ == val and k_ != key:
+                    nmap[k_] = nmap[key]
+            nmap[key] = val
+    def ren(a):
+        a['name'] = amap[a['name']]
+        if 'nodes' in a and a['nodes'] is not None:
+            a['nodes'] = [nmap[n] for n in a['nodes']]
+        for key in ('asset1_variable', 'asset2_variable'):     # a LinkedAsset refers to wrapped assets / nodes by name
+            if key in a:
+                v = list(a[key])
+                v[0] = amap.get(v[0], v[0])
+                if v[2] is not None:
+                    v[2] = nmap.get(v[2], v[2])
+                a[key] = v
+        if 'base' in a: ren(a['base'])
+        for x in a.get('assets', []): ren(x)
+    for a in spec['assets']: ren(a)
+    return spec, {'assets': amap, 'nodes': nmap}
+
+
+def spec_nodes(a):
+    out = list(a.get('nodes') or [])
+    if 'base' in a: out += spec_nodes(a['base'])
+    for x in a.get('assets', []): out += spec_nodes(x)
+    return out
+
 
 
 # ------------------------------------------------------------------------------------------------
